@@ -5,8 +5,9 @@ import os, json, shutil, re, sys
 # usage: seed_collect.py [round]   round 1: /tmp/seed-Cxx/OUT + /tmp/seedres  -> ids Cxx-1, Cxx-2
 #                                   round 2: /tmp/seed-Cxx/OUT2 + /tmp/seedres2 -> ids Cxx-3, Cxx-4
 #                                   round 3: /tmp/seed-Cxx/OUT3 + /tmp/seedres3 -> ids Cxx-5, Cxx-6
+#                                   round 4: /tmp/seed-Cxx/OUT4 + /tmp/seedres4 -> ids Cxx-7, Cxx-8
 rnd = int(sys.argv[1]) if len(sys.argv) > 1 else 1
-notes_file, outdir, resdir, offset = [("seed_notes.json","OUT","/tmp/seedres",0),("seed_notes2.json","OUT2","/tmp/seedres2",2),("seed_notes3.json","OUT3","/tmp/seedres3",4)][rnd-1]
+notes_file, outdir, resdir, offset = [("seed_notes.json","OUT","/tmp/seedres",0),("seed_notes2.json","OUT2","/tmp/seedres2",2),("seed_notes3.json","OUT3","/tmp/seedres3",4),("seed_notes4.json","OUT4","/tmp/seedres4",6)][rnd-1]
 needs = json.load(open(os.path.join(os.path.dirname(__file__), notes_file)))
 missed = needs.pop("_missed")
 rows=[]
